@@ -157,6 +157,8 @@ TABLE.update({
     "c10_map_skips_condition_rows.diff": ("box", "contracts.c10:map_operands:map_operands_arg_sets", None),
     "c10_map_skips_latch_reset.diff": ("box", "contracts.c10:map_operands:map_operands_arg_sets", None),
     "c10_update_value_loses_type.diff": ("contracts.c10", "ConstantPropagationOptimizer._update_value", None),
+    "c13_implicit_mapping_not_recorded.diff": ("box", "contracts.c13:resolve_identity:resolve_identity_arg_sets", None),
+    "c13_label_before_declared_type.diff": ("box", "contracts.c13:resolve_identity:resolve_identity_arg_sets", None),
     "c04_self_feedback_on_green.diff": ("box", "contracts.c04:self_feedback:self_feedback_arg_sets", None),
     "c04_cleanup_keeps_wires_of_removed_gate.diff": ("box", "contracts.c04:cleanup_gates:cleanup_arg_sets", None),
     "../seeded/C04-1/patch.diff": ("box", "contracts.c04:optimize_feedback:feedback_arg_sets", None),
